@@ -61,10 +61,10 @@ def _parse_file(file: TextIO) -> RecordsDatabase:
     record_cls: Optional[Type[Record]] = None
 
     for line_number, line in enumerate(file, start=1):
-        if line[0] in SKIPPED_LINES:
-            continue
-
         line = line.strip()
+
+        if not line or line[0] in SKIPPED_LINES:
+            continue
 
         if line[0] == "[":
             with parsing_error_wrapper(line_number):
